@@ -1,6 +1,6 @@
 #!/bin/sh
 # tools/seed_sweep.sh <seed>... : run every registered quick check with the given seeds on the unchanged tree
-cd /verif
+cd "$(dirname "$0")/.."
 for S in "$@"; do
   for P in $(python3 -c "import json; print(' '.join(c['property_id'] for c in json.load(open('MANIFEST.json'))['checks']))"); do
     R=$(VERIF_SEED=$S timeout 1800 bin/check $P 2>&1 | grep -E "^(OK|VIOLATION)" | cut -c1-160)
